@@ -72,6 +72,7 @@ type FSM struct {
 	maxFail      int
 	restartTime  time.Duration
 	timer        *time.Timer
+	timerGen     uint64
 	callbacks    Callbacks
 	handler      OptionHandler
 	lastReqID    uint8
@@ -238,6 +239,25 @@ func (f *FSM) Timeout() {
 	f.mu.Lock()
 	defer f.mu.Unlock()
 
+	f.timeout()
+}
+
+// timerFired is the restart timer's callback. While it waited for f.mu the
+// timer may have been stopped or restarted by another event; such a late fire
+// is not a timeout event (the RFC 1661 automaton has no running timer then)
+// and is ignored.
+func (f *FSM) timerFired(gen uint64) {
+	f.mu.Lock()
+	defer f.mu.Unlock()
+
+	if f.timer == nil || gen != f.timerGen {
+		return
+	}
+	f.timer = nil
+	f.timeout()
+}
+
+func (f *FSM) timeout() {
 	if f.restartCount > 0 {
 		f.restartCount--
 		switch f.state {
@@ -550,7 +570,9 @@ func (f *FSM) nextID() uint8 {
 
 func (f *FSM) startTimer() {
 	f.stopTimer()
-	f.timer = time.AfterFunc(f.restartTime, f.Timeout)
+	f.timerGen++
+	gen := f.timerGen
+	f.timer = time.AfterFunc(f.restartTime, func() { f.timerFired(gen) })
 }
 
 func (f *FSM) stopTimer() {
